@@ -1,6 +1,7 @@
 SPECIFICATION Spec
 CONSTANTS
   SmallWidths = {1, 2}
+  HexWidths = {}
   BigWidths = {}
   Exps = {}
   PatWidth = 0
